@@ -18,6 +18,7 @@ import (
 	"runtime"
 	"strings"
 	"sync"
+	"sync/atomic"
 	"time"
 
 	ike "github.com/free5gc/ike"
@@ -60,6 +61,22 @@ var (
 
 var encrNames2 = map[int]string{128: "aes-cbc-128", 192: "aes-cbc-192", 256: "aes-cbc-256"}
 
+// groupPrime: the modulus of group 2 (i = 0) / 14 (i = 1), recovered from the library-independent identity 2^n mod p = 2^n - p
+// for n = 1024 / 2048 (the top bit of p is set) -- computed once with math/big from the group's own public value of n
+var groupPrimes [2]*big.Int
+var groupPrimeOnce sync.Once
+
+func groupPrime(i int) *big.Int {
+	groupPrimeOnce.Do(func() {
+		for q, n := range []uint{1024, 2048} {
+			t := dh.StrToType(dhNames[[]int{2, 14}[q]])
+			r := new(big.Int).SetBytes(t.GetPublicValue(big.NewInt(int64(n))))
+			groupPrimes[q] = new(big.Int).Sub(new(big.Int).Lsh(big.NewInt(1), n), r)
+		}
+	})
+	return groupPrimes[i]
+}
+
 func digest(v any) string {
 	b, _ := json.Marshal(v)
 	return string(b)
@@ -67,7 +84,16 @@ func digest(v any) string {
 
 // runOp performs one library operation for goroutine g and returns a digest of what it observed.  Everything it touches
 // is created here (own messages, own SA objects); only the registries, the random source and sharedWire are shared.
+// progress of the race driver: when the last operation returned and which kind was entered last (the watchdog reports a process in
+// which no operation returns any more -- a call that blocks because of what OTHER calls did is interference of the plainest kind)
+var (
+	lastReturn atomic.Int64
+	lastKind   atomic.Value
+)
+
 func runOp(kind string, g int, seed int64, i int) (out string) {
+	lastKind.Store(kind)
+	defer lastReturn.Store(time.Now().UnixNano())
 	defer func() {
 		if r := recover(); r != nil {
 			out = fmt.Sprintf("panic: %v", r)
@@ -331,7 +357,14 @@ func runOp(kind string, g int, seed int64, i int) (out string) {
 		if sharedPeer.Cmp(sharedPeerSnap) != 0 {
 			return "absolute: the peer's public value (an input shared read-only) was changed by GetSharedKey"
 		}
-		return digest(J{"pub": octOf(t.GetPublicValue(x)), "sh": octOf(t.GetSharedKey(x, new(big.Int).SetBytes(t.GetPublicValue(y)))), "sh2": octOf(sh2)})
+		// peers also send degenerate values (0, 1, p-1, p, p+1, a value longer than the modulus): whatever the library makes of
+		// them, it makes the same of them here as when asked alone, and the exchanges that follow are not affected
+		var degen []any
+		for _, pv := range []*big.Int{big.NewInt(0), big.NewInt(1), new(big.Int).Sub(groupPrime(g%2), big.NewInt(1)), groupPrime(g % 2),
+			new(big.Int).Add(groupPrime(g%2), big.NewInt(1)), new(big.Int).Lsh(big.NewInt(1), 2100)} {
+			degen = append(degen, octOf(t.GetSharedKey(x, pv)))
+		}
+		return digest(J{"pub": octOf(t.GetPublicValue(x)), "sh": octOf(t.GetSharedKey(x, new(big.Int).SetBytes(t.GetPublicValue(y)))), "sh2": octOf(sh2), "degen": degen})
 	case "transforms":
 		var outs []any
 		for _, kd := range []string{"encr", "encrk", "integ", "integk", "prf", "dh"} {
@@ -569,6 +602,29 @@ func raceMain(argv []string) int {
 		nonceSnap = append([]byte{}, nonceArena...)
 	}
 	res := &DriveResult{Name: "race", Extra: J{}, StepsBy: J{}}
+	lastReturn.Store(time.Now().UnixNano())
+	lastKind.Store("")
+	go func() { // watchdog: no operation has returned for two minutes (longer while the machine is overloaded)
+		quiet := 0
+		for {
+			time.Sleep(5 * time.Second)
+			if time.Since(time.Unix(0, lastReturn.Load())) < 120*time.Second {
+				quiet = 0
+				continue
+			}
+			if overloaded() && quiet < 96 { // up to eight more minutes under load
+				quiet++
+				continue
+			}
+			k, _ := lastKind.Load().(string)
+			res.Failures = append(res.Failures, J{"prop": "C18", "sig": "interference:hang:" + k,
+				"what": "no operation has returned for two minutes: calls of kind " + k + " (which return when made alone on a fresh process) block", "replay": J{"fam": "race-set"}})
+			res.WallS = time.Since(t0).Seconds()
+			b, _ := json.MarshalIndent(res, "", " ")
+			os.WriteFile(*out, b, 0o644)
+			os.Exit(1)
+		}
+	}()
 	sc := bufio.NewScanner(f)
 	sc.Buffer(make([]byte, 1<<20), 1<<26)
 	totalOps, goroutines := 0, 0
